@@ -3,7 +3,7 @@
 (scratch worktree of /repo + scratch copy of runner/), never touching /repo. Writes seeded/MATRIX.json.
 usage: mutant_matrix.py [--checks C01,C08,...] [--only C08-1,...] [--tier quick]"""
 import glob, json, os, shutil, subprocess, sys, time
-ROOT = "/verif"
+ROOT = os.path.dirname(os.path.dirname(os.path.abspath(__file__)))
 MX = "/tmp/mx"
 ALL = ["C01", "C08", "C09", "C10", "C12", "C14", "C15", "C16"]
 
